@@ -72,6 +72,8 @@ InitTimer(t) == [
     fclk |-> 1,           \* clock in du_timer_flags
     tgt |-> INF, iv |-> INF,                 \* dt_timer.target / interval
     pend |-> NoCfg,                          \* dt_pending_config
+    taken |-> NoCfg,                         \* (deviation "pinned_configure_window" only) configuration taken by
+                                             \*   _dispatch_timers_run's configure, ds_pending_data not cleared yet
     pcnt |-> 0, pmark |-> FALSE,             \* ds_pending_data = pcnt << 1 | DISPATCH_TIMER_DISARMED_MARKER
     tpc |-> "idle",       \* target-queue invoke of this source: "idle", "latch", "post"
     prevmark |-> FALSE,   \* latch_and_call: prev & DISARMED_MARKER
@@ -130,16 +132,25 @@ UnoteResume(r) ==
 KeepsPending(r) == \/ Mut = "honour_old"
                    \/ Mut = "configure_keeps_pending_when_disarmed" /\ ~r.armed
                    \/ Mut = "configure_keeps_pending_suspended_fire" /\ ~r.armed /\ r.psusp
-Configure(r) ==
-    LET cfg == r.pend
-        keep == KeepsPending(r)
-        r1 == [r EXCEPT !.pend = NoCfg, !.fclk = cfg.clk, !.tgt = cfg.target, !.iv = cfg.iv,
+\*
+\* Atomicity.  Configure is ONE step here: for every observer the configuration disappears from dt_pending_config and
+\* the pending data of the older parameters disappears from ds_pending_data together.  Three of the four callers hold
+\* the source's drain lock (or run before activation), so nobody can look in between.  _dispatch_timers_run does NOT:
+\* an invoke on the target queue can run concurrently, see dt_pending_config == NULL and latch ds_pending_data.  The
+\* pinned code takes first and clears afterwards (free() in between): deviation Mut = "pinned_configure_window" models
+\* exactly that (MRun takes, MRunConfigure2 clears and resifts) and TLC shows OnlyNewConfig violated; clearing before
+\* taking (patches/C11-fix-configure-clear-before-take.diff) makes the pair atomic for observers: while the word is
+\* cleared but the configuration still pending, an invoke still sees the configuration and goes to the manager.
+ApplyCfg(r, cfg) ==
+    LET keep == KeepsPending(r)
+        r1 == [r EXCEPT !.fclk = cfg.clk, !.tgt = cfg.target, !.iv = cfg.iv,
                         !.astart = cfg.target, !.rep = 0,
                         !.pcnt = IF keep THEN @ ELSE 0,          \* "clear any pending data"
                         !.pmark = IF keep THEN @ ELSE FALSE,
                         !.pstale = IF keep THEN @ ELSE FALSE,
                         !.psusp = IF keep THEN @ ELSE FALSE]
     IN IF r.armed THEN UnoteResume(r1) ELSE r1
+Configure(r) == ApplyCfg([r EXCEPT !.pend = NoCfg], r.pend)
 
 \* _dispatch_timer_unote_compute_missed: ComputeMissed(r, now, prev) of TimerLaws
 
@@ -231,7 +242,7 @@ Due(r, n) == IF Mut = "early" THEN r.tgt <= n + 1 ELSE r.tgt <= n
 
 \* one iteration of the while loop of _dispatch_timers_run(dth, tidx = mi, nows)
 MRun ==
-    /\ mpc = "run" /\ mdis = 0
+    /\ mpc = "run" /\ mdis = 0 /\ \A u \in Timers : tm[u].taken.gen = 0
     /\ IF Heap(tm, mi) = {}
          THEN /\ (IF mi < NClocks THEN mi' = mi + 1 /\ mpc' = "run" /\ UNCHANGED dirty
                                   ELSE mi' = 1 /\ mpc' = "prog" /\ dirty' = FALSE)          \* dth[0].dth_dirty_bits = 0
@@ -246,6 +257,8 @@ MRun ==
                    ELSE IF r.after                     \* one-shot: disarm, unregister, pending = 2, merge_evt
                      THEN LET m1 == [tm EXCEPT ![t] = [r EXCEPT !.armed = FALSE, !.unreg = TRUE, !.pcnt = 1, !.pmark = FALSE]]
                           IN tm' = m1 /\ HeapTouched(m1) /\ UNCHANGED <<mpc, mi, mdis>>
+                   ELSE IF r.pend.gen # 0 /\ Mut = "pinned_configure_window"    \* dtc = xchg(dt_pending_config, NULL) ...
+                     THEN tm' = [tm EXCEPT ![t].taken = r.pend, ![t].pend = NoCfg] /\ UNCHANGED <<dirty, np, mpc, mi, mdis>>
                    ELSE IF r.pend.gen # 0             \* a new configuration: apply it instead of firing
                      THEN LET m1 == [tm EXCEPT ![t] = Configure(r)]
                           IN tm' = m1 /\ HeapTouched(m1) /\ UNCHANGED <<mpc, mi, mdis>>
@@ -260,6 +273,15 @@ MRun ==
                             m1 == [tm EXCEPT ![t] = r2]
                         IN tm' = m1 /\ HeapTouched(m1) /\ UNCHANGED <<mpc, mi, mdis>>
     /\ UNCHANGED <<now, darm, kt, ken, kreg, calls, viol>>
+
+\* (deviation "pinned_configure_window") ... dt_timer = dtc's; free(dtc); store(ds_pending_data, 0); resume
+MRunConfigure2 ==
+    /\ mpc = "run" /\ mdis = 0
+    /\ \E t \in Timers :
+         /\ tm[t].taken.gen # 0
+         /\ LET m1 == [tm EXCEPT ![t] = ApplyCfg([tm[t] EXCEPT !.taken = NoCfg], tm[t].taken)]
+            IN tm' = m1 /\ HeapTouched(m1)
+    /\ UNCHANGED <<now, mpc, mi, mdis, cnow, darm, kt, ken, kreg, calls, viol>>
 
 \* ... _dispatch_timer_unote_disarm(dr); os_atomic_or_orig2o(dr, ds_pending_data, DISARMED_MARKER); merge_evt
 MRunDisarm ==
@@ -352,7 +374,7 @@ Client == \E t \in Timers :
             \/ \E c \in Clocks, d \in StartDeltas, i \in Intervals : SetTimer(t, c, d, i)
             \/ SetTimerForever(t) \/ Activate(t) \/ Suspend(t) \/ Resume(t) \/ Cancel(t)
             \/ \E c \in Clocks, d \in StartDeltas : After(t, c, d)
-Manager == (\E t \in Timers : MInvoke(t)) \/ MQueueDone \/ MRun \/ MRunDisarm \/ MProg \/ MWake
+Manager == (\E t \in Timers : MInvoke(t)) \/ MQueueDone \/ MRun \/ MRunConfigure2 \/ MRunDisarm \/ MProg \/ MWake
            \/ \E c \in Clocks : KernelFire(c)
 TargetQ == \E t \in Timers : TInvoke(t) \/ TLatch(t) \/ TPost(t)
 Next == Client \/ Manager \/ TargetQ \/ \E c \in Clocks : Tick(c)
